@@ -223,6 +223,29 @@ impl World {
         .with_raw()
     }
 
+    /// Make a raw packet readable right now (used by the receive-path sweeps).
+    pub fn inject_now(&mut self, bytes: Vec<u8>, from: IpAddr) {
+        let meta = PktMeta {
+            class: PktClass::Junk("raw".into()),
+            answers: None,
+            from,
+            kind: RespKind::TimeExceeded(0),
+            quoted_udp_cksum: None,
+            quoted_tos: None,
+            ext: None,
+            len: bytes.len(),
+            names_seq: None,
+        };
+        self.enqueue(vclock::now_ns(), bytes, meta);
+    }
+
+    /// Drop the log (long sweeps over one world).
+    pub fn clear_log(&mut self) {
+        self.events.clear();
+        self.sends.clear();
+        self.queue.clear();
+    }
+
     fn with_raw(mut self) -> Self {
         let raws = self.spec.raw.clone();
         for r in raws {
